@@ -2,8 +2,8 @@
 # usage: seedverify.sh <ID> <A|B>   — confirms a seeded change independently: applies it to a scratch worktree of /repo,
 # builds, runs the unedited test-suite, runs the demonstration with and without the change; removes the worktree.
 ID=$1; V=$2
-SRC=/tmp/seed_out/$ID/$V
-WT=/tmp/sv/$ID$V
+SRC=${SEEDROOT:-/tmp/seed_out}/$ID/$V
+WT=/tmp/sv/${SEEDTAG:-r1}$ID$V
 OUT=$SRC/verify.txt
 mkdir -p /tmp/sv
 git -C /repo worktree remove --force $WT >/dev/null 2>&1
